@@ -411,7 +411,14 @@ End Machine.
 (* ================================================================================================ *)
 (* 3. the request-level replay model (executable; the oracle runs it on the recorded history)        *)
 
-Inductive prediction := PExact (a : N) | PAnyAnswer.
+(* PExactOrCancelled: the shared iterators hand the FIRST consumer's iterator (created under that
+   consumer's context) to later consumers of the same read; when the first consumer is a branch that
+   the engine cancels (short circuit of a union / intersection), the others fail with `Request
+   Cancelled` (code 2058, interned as answer 2 by the driver).  Open finding of C09
+   (shared_admission_cancel_leak); it only concerns requests that pass through the shared
+   iterators, i.e. never a HIGHER_CONSISTENCY request. *)
+Inductive prediction := PExact (a : N) | PExactOrCancelled (a : N) | PAnyAnswer.
+Definition cancelled_code : N := 2.
 
 Record rcfg := mkR {
   r_query : bool; r_iter : bool; r_lo_iter : bool; r_shared : bool; r_ctrl : bool; r_v2 : bool
@@ -469,12 +476,18 @@ Definition uses_query (c : rcfg) (r : rreq) : bool :=
 Definition forget (ks : list N) (top : list (N * N)) : list (N * N) :=
   filter (fun e => negb (existsb (N.eqb (fst e)) ks)) top.
 
+(* a cached request whose reads go through the shared iterators *)
+Definition through_shared (c : rcfg) (r : rreq) : bool :=
+  r_shared c && ((is_check (rq_api r) && negb (r_v2 c)) || N.eqb (rq_api r) 2).
+
 Definition predict (c : rcfg) (st : rstate) (r : rreq) : prediction :=
   if rq_hi r then PExact (rq_ref r)
   else if negb (caches_on c (rq_api r)) then PExact (rq_ref r)
   else match (if top_tracked c r && negb (r_ctrl c) then nlook (rs_top st) (rq_key r) else None) with
        | Some v => PExact v                  (* top-level hit: the stored response, stale or not *)
-       | None => if rs_dirty st then PAnyAnswer else PExact (rq_ref r)
+       | None => if rs_dirty st then PAnyAnswer
+                 else if through_shared c r then PExactOrCancelled (rq_ref r)
+                 else PExact (rq_ref r)
        end.
 
 Definition rstep (c : rcfg) (st : rstate) (o : rop) : rstate :=
@@ -495,7 +508,11 @@ Definition rstep (c : rcfg) (st : rstate) (o : rop) : rstate :=
   end.
 
 Definition agrees (p : prediction) (obs : N) : bool :=
-  match p with PExact a => N.eqb a obs | PAnyAnswer => true end.
+  match p with
+  | PExact a => N.eqb a obs
+  | PExactOrCancelled a => N.eqb a obs || N.eqb obs cancelled_code
+  | PAnyAnswer => true
+  end.
 
 (* verdict per request: 0 ok, 1 the observed answer is not the predicted one (DIFF), 2 a
    HIGHER_CONSISTENCY (or uncached) answer differs from the reference (PROP) *)
